@@ -285,6 +285,13 @@ class Case:
     self.name, self.params, self.pre, self.witness, self.never_returns = name, params, pre, witness, never_returns
 
 
+def body_only(fn):
+  """marks an ensures clause that speaks about intermediates of the body (ghost `final_locals`, call log of the body): it is an obligation
+  of the body, and is NOT assumed at call sites (where those intermediates do not exist)"""
+  fn.body_only = True
+  return fn
+
+
 class Returns:
   """how to build the symbolic result at a call site: fn(args, path, ex) -> V"""
   def __init__(self, fn):
@@ -359,6 +366,8 @@ class Contract:
         pass   # attribute effects are described by the Returns builder (it may assign on the heap)
     res = self.returns.fn(a, p, ex) if self.returns else VNone()
     for name, cl in self.ensures.items():
+      if getattr(cl, 'body_only', False):
+        continue
       c = cl(a, unwrap(res, p))
       if c is not None and c is not True:
         p.assume(c)
